@@ -74,7 +74,7 @@ inductive Step (life : Nat) (g : G) (t : Tid) : G → Prop
   | set (hpc : (g.threads t).pc = .atSet) (k : Key) (hk : (g.threads t).req.key = some k) :
       Step life g t ({ g with store := fun k' => if k' = k then some (t, g.now + life) else g.store k',
                                vals := fun k' => if k' = k then some (recorded g.keep (g.threads t).req.resp) else g.vals k' }.setThread t
-        { g.threads t with pc := .atUnlock, out := .own, stored := true })
+        { g.threads t with pc := .atUnlock, out := .own, stored := true, setAt := g.now })
   | unlockCall (hpc : (g.threads t).pc = .atUnlock) :
       Step life g t (g.setThread t { g.threads t with pc := .unlockLookup })
   | unlockFound (hpc : (g.threads t).pc = .unlockLookup) (k : Key) (hk : (g.threads t).req.key = some k) (i : Nat)
